@@ -54,7 +54,8 @@ def run(tier, seed):
         sd = str(rng.randrange(1 << 30))
         fmt = str(rng.choice([3, 3, 2]))
         ttl = str(rng.choice([1, 1, 0]))
-        base = ["--seed", sd, "--steps", str(steps), "--mode", "pers", "--fmt", fmt, "--ttl", ttl]
+        # --cachebias: bursts "short-lived key written, flushed, read while alive, read again after its deadline"
+        base = ["--seed", sd, "--steps", str(steps), "--mode", "pers", "--fmt", fmt, "--ttl", ttl, "--cachebias", "1"]
         jobs.append(("p%d_on" % i, base + ["--cache", "1"]))
         jobs.append(("p%d_off" % i, base + ["--cache", "0"]))
         pairs.append(("p%d_on" % i, "p%d_off" % i))
